@@ -100,6 +100,8 @@ static void laws(struct lp_msg *a, struct lp_msg *b, struct lp_msg *c)
 
 static const double T[] = {0.0, 1.0, 2.5, 1e300};
 static const uint32_t TY[] = {0, 1, 7, 65533};
+/* event_type is an `unsigned` of the API with only LP_INIT/LP_FINI reserved: far-apart values exercise wrap-around in comparisons */
+static const uint32_t TYBIG[] = {65536, 0x10000000u, 0x70000000u, 0x7fffffffu, 0x80000000u, 0xD0000000u, 0xffffffffu};
 static const uint32_t SZ[] = {0, 1, 2, 31, 32, 33, 200};
 
 static struct lp_msg *rnd_msg(struct lp_msg *like)
@@ -112,6 +114,8 @@ static struct lp_msg *rnd_msg(struct lp_msg *like)
 		t = bits_dbl(vrng() >> 2); /* arbitrary non-negative finite */
 	uint32_t fl = (uint32_t)vrng_below(4) | ((uint32_t)vrng_below(3) ? 0 : ((uint32_t)vrng() & ~3u));
 	uint32_t ty = vrng_below(6) ? TY[vrng_below(4)] : (uint32_t)vrng_below(65534);
+	if(!vrng_below(5))
+		ty = vrng_below(3) ? TYBIG[vrng_below(7)] : (uint32_t)vrng();
 	uint32_t sz = vrng_below(6) ? SZ[vrng_below(7)] : (uint32_t)vrng_below(CAP + 1);
 	if(like && vrng_below(2)) { /* derive from an existing message: force ties and near-equal content */
 		t = like->dest_t;
